@@ -1097,6 +1097,5 @@ Example premises_example :
     [[103]; [109]; []; []; []; []; [111]].
 Proof.
   repeat split; try reflexivity; try (unfold max_nsamp; lia).
-  - cbn. lia.
-  - repeat constructor; cbn; unfold max_nsamp; lia.
+  repeat constructor; cbn; unfold max_nsamp; lia.
 Qed.
